@@ -325,7 +325,7 @@ void decl_fill(World& w, const DeclH h, const Op& op)
    case 6: {   // function declaration data
       if (h.kind != 5) break;
       auto f = static_cast<impl::Fundecl*>(h.impl);
-      if (op.c % 8 == 7) {
+      if (op.c % 4 == 3) {
          // a definition is announced but its mapping is not built yet: every reading of it is refused
          static_cast<std::variant<impl::Parameter_list*, impl::Mapping*>&>(f->data).emplace<1>(nullptr);
          if (rec) rec->exp("mapping", Val::absent()).exp("initializer", Val::absent()).exp("parameters", Val::throws());
